@@ -7,6 +7,7 @@ from vf.gen import expr as G
 from vf.monitors import capture, describe
 from vf.ref import logic
 
+from ahbicht.expressions.expression_resolver import parse_expression_including_unresolved_subexpressions
 from ahbicht.expressions.condition_expression_parser import parse_condition_expression_to_tree
 
 FRESH_HINTS = ["590", "500", "900", "899", "700"]  # incl. both ends of the hint range
@@ -120,11 +121,36 @@ async def check_expression(ctx, case):
             # hint texts are user data: empty, blank, "0" and "None" are texts like any other
             hints = {k: rng.choice(["", "", " ", "0", "None", E.hint_text(k)]) for k in G.keys_of(tast, "hint")}
             ctx.count("async_related_pairs_with_odd_hint_texts")
-        aout = await H.async_requirement(ts, H.world_for(tast, asg, hints=hints), scheduler)
+        world = H.world_for(tast, asg, hints=hints)
+        if rng.random() < 0.3:
+            # the transformed expression written with packages (resolved by the library before the evaluation): the same relations hold
+            past, table = G.abbreviate(tast, rng, ["1P", "2P", "3P"], 3)
+            if table:
+                ctx.count("async_related_pairs_written_with_packages")
+                world.pkg = table
+                ts = G.render(past, rng, G.EXACT)
+
+                async def resolved(ts=ts):
+                    return await parse_expression_including_unresolved_subexpressions(ts, resolve_packages=True)
+
+                rout = await sched.run_under(None, lambda: _with_world(world, resolved))
+                if rout[0] != "ok":
+                    ctx.violation(f"evaluation-raises-{type(rout[1]).__name__}", f"{name}: resolving {ts!r} with packages {table} {describe(rout)[:200]}", case=case)
+                    continue
+                aout = await H.async_requirement(rout[1], world, scheduler)
+            else:
+                aout = await H.async_requirement(ts, world, scheduler)
+        else:
+            aout = await H.async_requirement(ts, world, scheduler)
         if aout[0] != "ok":
             ctx.violation("transformation-makes-invalid" if type(aout[1]).__name__ == "InvalidExpressionError" else f"evaluation-raises-{type(aout[1]).__name__}", f"{name}: requirement_constraint_evaluation({ts!r}) under {asg} {describe(aout)[:200]}", case=case)
         elif (aout[1].requirement_constraints_fulfilled, aout[1].requirement_is_conditional) != expected:
             ctx.violation(name, f"{name}: requirement_constraint_evaluation({ts!r}) under {asg} = {(aout[1].requirement_constraints_fulfilled, aout[1].requirement_is_conditional)}, source expression {s!r} gives {expected}", case=case)
+
+
+async def _with_world(world, factory):
+    E.set_world(world)
+    return await factory()
 
 
 async def run(ctx):
